@@ -1023,6 +1023,10 @@ def get_mixed_range_representation(array: np.ndarray,
     if len(array) < 2:
         return '{0}'.format(array[0])
 
+    if array.dtype.kind == 'u':
+        # The differences below wrap around for unsigned integers
+        array = array.astype(np.int64)
+
     diff = array[1:] - array[0:-1]
     diff = np.hstack([diff[0], diff])
     start = 0
